@@ -370,6 +370,8 @@ class Lib:
     def sf_old(self, ex, node, st):
         name = node.args[0].id
         old = st.locals.get("__old__")
+        if old is None and hasattr(ex, "entry"):
+            old = ex.entry.locals        # ghost statements and loop measures are evaluated in the running state
         if old is None or name not in old:
             raise EngineError("old(%s) has no entry value" % name)
         return old[name]
